@@ -91,14 +91,18 @@ def symEigAccept (tol : Rat) (A : Mat) (lam : List Rat) (Vt : Mat) : Bool :=
   ascending lam && orthoAccept tol Vt && lam.length == A.length && Vt.length == A.length &&
   (List.range A.length).all (fun k => eigPairAccept tol A (lam.getD k 0) 0 (Vt.getD k []) ((Vt.getD k []).map (fun _ => 0)))
 
-/-- `A·X ≈ I` and `X·A ≈ I`: `|(AX − I)_ij| ≤ tol·Σ_k |A_ik||X_kj|` (+ the same from the left) -/
+def absSum (v : List Rat) : Rat := (v.map absR).foldl (· + ·) 0
+def maxAbs (v : List Rat) : Rat := (v.map absR).foldl (fun a b => if a < b then b else a) 0
+
+/-- `A·X ≈ I` and `X·A ≈ I`, normwise per row/column:
+`|(AX − I)_ij| ≤ tol·(‖A_i‖₁·‖X_{·j}‖∞ + δ_ij)` and `|(XA − I)_ij| ≤ tol·(‖X_i‖∞·‖A_{·j}‖₁ + δ_ij)` -/
 def invAccept (tol : Rat) (A X : Mat) : Bool :=
   let n := A.length
   let Xt := transpose X n
   let At := transpose A n
   (List.range n).all (fun i => (List.range n).all (fun j =>
-    decide (absR (dot (A.getD i []) (Xt.getD j []) - kron i j) ≤ tol * (absDot (A.getD i []) (Xt.getD j []) + kron i j)) &&
-    decide (absR (dot (X.getD i []) (At.getD j []) - kron i j) ≤ tol * (absDot (X.getD i []) (At.getD j []) + kron i j))))
+    decide (absR (dot (A.getD i []) (Xt.getD j []) - kron i j) ≤ tol * (absSum (A.getD i []) * maxAbs (Xt.getD j []) + kron i j)) &&
+    decide (absR (dot (X.getD i []) (At.getD j []) - kron i j) ≤ tol * (maxAbs (X.getD i []) * absSum (At.getD j []) + kron i j))))
 
 /-! ## exact reference: Gauss–Jordan over `Rat` -/
 
